@@ -51,5 +51,8 @@ def run(check):
     check.run_rule('C20.R9', lambda c: rule_definite_assignment(
         c, 'C20.R9', ['support:read_sig', 'support:func_code', 'support:make_func', 'support:f', 'support:s', 'support:func_from_sig',
                       'support:bind_callsig', 'support:sort_callsigs', 'support:make_up_callsigs'], 'from the support helpers'))
+    from ..rules_support import rule_read_sig_flag_gating, rule_options_forwarded
+    check.run_rule('C20.R10', lambda c: rule_options_forwarded(c, 'C20.R10'))
+    check.run_rule('C20.R11', lambda c: rule_read_sig_flag_gating(c, 'C20.R11'))
     from ..rules_support import rule_read_sig_insertion_index
     check.run_rule('C20.R8', lambda c: rule_read_sig_insertion_index(c, 'C20.R8'))
